@@ -229,7 +229,16 @@ class CliGlobalExtras(Stream):
             extras = {}
             for e in ("x", "test"):
                 if rest and rng.random() < 0.7:
-                    extras[e] = [[rest.pop(), rng.choice(self.SPECS)]]
+                    t = rest.pop()
+                    if rng.random() < 0.35:
+                        # the same project twice under one extra: a bound that holds on some interpreters only and one
+                        # that always holds (either may be listed first) - one requirer, one entry, both bounds
+                        pair = [[t, ">=0.5", 'python_version >= "3"'], [t, "<9"]]
+                        if rng.random() < 0.5:
+                            pair.reverse()
+                        extras[e] = pair
+                    else:
+                        extras[e] = [[t, rng.choice(self.SPECS)]]
             projects[n] = {"base": base, "extras": extras}
         inputs = [["sa", rng.choice(self.SPECS)]]
         if len(sources) > 2 and rng.random() < 0.4:
@@ -252,7 +261,8 @@ class CliGlobalExtras(Stream):
             os.makedirs(pd)
             cfg = "[metadata]\nname = %s\nversion = 1.0\n\n[options]\ninstall_requires =\n%s" % (n, "".join("    %s%s\n" % (t, sp) for t, sp in p["base"]))
             if p["extras"]:
-                cfg += "\n[options.extras_require]\n" + "".join("%s =\n%s" % (e, "".join("    %s%s\n" % (t, sp) for t, sp in rs)) for e, rs in p["extras"].items())
+                cfg += "\n[options.extras_require]\n" + "".join(
+                    "%s =\n%s" % (e, "".join("    %s%s%s\n" % (x[0], x[1], ("; " + x[2]) if len(x) > 2 else "") for x in rs)) for e, rs in p["extras"].items())
             with open(os.path.join(pd, "setup.cfg"), "w") as f:
                 f.write(cfg)
         B.write_findlinks(os.path.join(d, "links"), {B.wheel_name(w, "1.0"): B.wheel_bytes(w, "1.0") for w in ("wa", "wb")})
@@ -291,8 +301,11 @@ class CliGlobalExtras(Stream):
     def _expected(self, case):
         want = {}
 
+        clauses = {}
+
         def add(target, requirer, extra, spec):
-            want.setdefault(target, set()).add((requirer, extra, tuple(sorted(c for c in spec.split(",") if c)), ()))
+            cl = clauses.setdefault((target, requirer, extra), set())
+            cl.update(c for c in spec.split(",") if c)
         todo = []
         for t, sp in case["inputs"]:
             add(t, "in0.txt", None, sp)
@@ -311,9 +324,11 @@ class CliGlobalExtras(Stream):
                 add(t, n, None, sp)
                 todo.append(t)
             for e in case["global_extras"]:
-                for t, sp in p["extras"].get(e, []):
-                    add(t, n, e, sp)
-                    todo.append(t)
+                for x in p["extras"].get(e, []):
+                    add(x[0], n, e, x[1])
+                    todo.append(x[0])
+        for (target, requirer, extra), cl in clauses.items():
+            want.setdefault(target, set()).add((requirer, extra, tuple(sorted(cl)), ()))
         return want
 
     def flags(self, case, r):
